@@ -6,7 +6,7 @@
         matches := error("<name>",x, message ,[_result_0,...])
       }
    and of the constraint snippets whose shape is "bind the values of the path, draw one, test it": count / length
-   (count.go), pattern (pattern.go), datatype (datatype.go), numeric bounds (numericcomparison.go), `in` (scalar_superset.go).  The numbers in the generated names are parameters: the
+   (count.go), pattern (pattern.go), datatype (datatype.go), numeric bounds (numericcomparison.go), `in` (scalar_superset.go), containsAll / containsSome (scalar_subset.go, scalar_intersect_set.go).  The numbers in the generated names are parameters: the
    correspondence run reads them off the real module and compares every line.  [*_du] is the reading of the lines as
    (variable bound, variables needed); Proofs/RuleGenProofs.v: every such rule body is safe. *)
 From ACV Require Import Base.Strs Model.Report Model.Names Model.Escape.
@@ -80,6 +80,28 @@ Definition in_snippet (x src rule : string) (n1 n2 : nat) (negated : bool) (vals
      sn_id := "in"; sn_path := tpath;
      sn_value := """negated"":" ++ bool_text negated ++ ",""actual"": " ++ chk ++ ",""expected"": " ++ q (escape ("[" ++ join_quoted vals ++ "]"));
      sn_value_uses := [chk] |}.
+
+(* ---- scalar_subset.go (containsAll) / scalar_intersect_set.go (containsSome): n1 numbers the checked values, n2 the value
+   set; the third line is ONE element of the line list although it spans four lines of text (it ends with "}" and a newline) *)
+Definition nl : string := String (Ascii.ascii_of_nat 10) EmptyString.
+Definition contains_snippet (all : bool) (x src rule : string) (n1 n2 : nat) (negated : bool) (vals : list string) (tpath : string) : snippet :=
+  let chk := genvar (x ++ "_check") n1 in
+  let cid := if all then "containsAll" else "containsSome" in
+  let set := genvar cid n2 in
+  let diff := "count(" ++ set ++ " - " ++ chk ++ "_string_set)" in
+  {| sn_lines := ["#  querying path: " ++ src; chk ++ "_array = " ++ rule ++ " with data.sourceNode as " ++ x;
+                  "count(" ++ chk ++ "_array) != 0 # validation applies if property was defined";
+                  chk ++ "_string_set = { mapped |" ++ nl ++ "    original := " ++ chk ++ "_array[_]" ++ nl ++ "    mapped := as_string(original)" ++ nl ++ "}" ++ nl;
+                  set ++ " = " ++ string_set_literal vals;
+                  (if all then diff ++ (if negated then " == 0" else " != 0")
+                   else diff ++ (if negated then " != " else " == ") ++ "count(" ++ set ++ ")");
+                  chk ++ "_quoted = [concat("""", [""\"""", res, ""\""""]) |  res := " ++ chk ++ "_string_set[_]]";
+                  chk ++ "_string = concat("""", [""["", concat("", ""," ++ chk ++ "_quoted), ""]""])"];
+     sn_du := [(chk ++ "_array", [x]); ("", [chk ++ "_array"]); (chk ++ "_string_set", [chk ++ "_array"]); (set, []);
+               ("", [set; chk ++ "_string_set"]); (chk ++ "_quoted", [chk ++ "_string_set"]); (chk ++ "_string", [chk ++ "_quoted"])];
+     sn_id := cid; sn_path := tpath;
+     sn_value := """negated"":" ++ bool_text negated ++ ",""actual"": " ++ chk ++ "_string,""expected"": " ++ q (escape ("[" ++ join_quoted vals ++ "]"));
+     sn_value_uses := [chk ++ "_string"] |}.
 
 (* ---- wrapBranch + the rule around it *)
 Definition trace_line (i : nat) (x : string) (s : snippet) : string :=
